@@ -179,7 +179,7 @@ def check_config(acc, family, prog, ints, is_dag, cfg, runner):
             gg.inputs
         except Exception:  # noqa: BLE001
             pass
-        if not cfg["rsel"]:
+        if not cfg["rsel"] or cfg["rsel"] == "**":
             return
         try:
             sp = gg.select(*cfg["rsel"]).inputs
@@ -198,10 +198,14 @@ def check_config(acc, family, prog, ints, is_dag, cfg, runner):
         if cfg["entry"]:
             prerun(g)
             g = g.with_entrypoint(*cfg["entry"])
+        g_unselected = g
         if cfg["select"]:
             prerun(g)
             g = g.select(*cfg["select"])
-        gspec = g.select(*cfg["rsel"]) if cfg["rsel"] else g
+        if cfg["rsel"] == "**":
+            gspec = g_unselected  # run-time "**" lifts the graph's default selection
+        else:
+            gspec = g.select(*cfg["rsel"]) if cfg["rsel"] else g
         spec = gspec.inputs
     except Exception as e:  # noqa: BLE001
         acc.counters["configuration_rejected"] += 1
@@ -216,7 +220,13 @@ def check_config(acc, family, prog, ints, is_dag, cfg, runner):
             gf = gf.with_entrypoint(*cfg["entry"])
         if cfg["select"]:
             gf = gf.select(*cfg["select"])
-        if cfg["rsel"]:
+        if cfg["rsel"] == "**":
+            gf = build(p, H())
+            if cfg["bind"]:
+                gf = gf.bind(**{k: canon(_val(k, ints)) for k in cfg["bind"]})
+            if cfg["entry"]:
+                gf = gf.with_entrypoint(*cfg["entry"])
+        elif cfg["rsel"]:
             gf = gf.select(*cfg["rsel"])
         fresh_view = _spec_view(gf.inputs)
     except Exception:  # noqa: BLE001
@@ -274,7 +284,7 @@ def check_config(acc, family, prog, ints, is_dag, cfg, runner):
     choices = list(itertools.product(*groups)) if groups else [()]
     kw = {}
     if cfg["rsel"]:
-        kw["select"] = list(cfg["rsel"])
+        kw["select"] = "**" if cfg["rsel"] == "**" else list(cfg["rsel"])
     for choice in choices:
         inputs = {r: _val(r, ints) for r in req}
         for epn in choice:
@@ -296,6 +306,8 @@ def check_config(acc, family, prog, ints, is_dag, cfg, runner):
             viol("run-failed-with-full-inputs", f"inputs {sorted(inputs)}: {type(err).__name__}: {str(err)[:120]}", cyclic=bool(groups))
         elif is_dag and not cfg["entry"] and x.result is not None and x.result.status.value == "completed":
             sel = cfg["rsel"] or cfg["select"]
+            if sel == "**":
+                sel = [o for o in g_unselected.outputs if o not in g_unselected._get_emit_only_outputs()]
             if sel:
                 miss = [o for o in sel if o not in x.result.values]
                 if miss:
@@ -336,7 +348,8 @@ def configs_for(prog, tier):
     for b in binds:
         for s in sels:
             for en in entries:
-                rsels = [None] if s else [None] + [(o,) for o in outs[:2]]
+                # (with a graph-level selection: the run-time override to another output and to "**" = everything)
+                rsels = [None, "**"] + [(o,) for o in outs[:2] if (o,) != s][:1] if s else [None] + [(o,) for o in outs[:2]]
                 for rs in rsels:
                     if tier == "quick" and sum(x is not None and x != () for x in (b, s, en, rs)) > 2:
                         continue
